@@ -23,7 +23,8 @@ class Posters:
     def setup_process(self):
         if not self._ready:
             aoenv.install()
-            sched.monitor(H.pick_codes(H.QUEUE_CORE) if self.codes == "core" else H.ao_codes(), self.mode)
+            sched.monitor(H.pick_codes(H.QUEUE_CORE) if self.codes == "core" else
+                          (H.pick_codes(H.TOKEN_PROTOCOL) if self.codes == "tokens" else H.ao_codes()), self.mode)
             self._ready = True
 
     def body(self, s, p):
@@ -154,10 +155,19 @@ def run(tier):
     bound = 2
     h = Posters("line")
     st = explore.explore(h, params(tier), bound)
+    # instruction granularity for the two-poster harnesses (a preemption inside one source line)
+    # (token-protocol code only; two preemptions of which at most one inside a source line; thorough adds one harness
+    # with both anywhere)
+    ips = [dict(p, bound=2.015) for p in params(tier) if len(p["kinds"]) == 2][: (1 if tier == "quick" else 6)]
+    hy = Posters("instr", "tokens")
+    hy.intra_cost = 1.01
+    st.merge(explore.explore(hy, ips, 2.015))
+    if tier != "quick":
+        st.merge(explore.explore(Posters("instr", "tokens"), [dict(params(tier)[0])], 2))
     # fair periodic schedules (see PeriodicPosters): livelocks that need a preemption in every iteration of a retry loop
     pst, nper = periodic(tier)
     st.merge(pst)
-    fill(res, st, bound, "line", "; plus %d fair periodic schedules {one poster runs q = 1..%d scheduling points, then every other thread "
+    fill(res, st, bound, "line", "; plus the two-poster harnesses at instruction granularity; plus %d fair periodic schedules {one poster runs q = 1..%d scheduling points, then every other thread "
          "runs until it blocks; the regime starts at point o = 0..%d}: a run that reaches the horizon under such a schedule is a "
          "livelock with unboundedly many preemptions" % (nper, QMAX, OMAX))
     return res
